@@ -171,9 +171,9 @@ def main():
     run = Run(PID, tier)
     cache = FnCache()
     from harness.lie import prelude as _prelude
-    _prelude(run, report=())
+    _prelude(run, report=("adjoint",))
     from harness import history as _history      # engine H: call histories in fresh interpreters (spec/LieHistory.tla)
-    if _history.hook(run, tier, {"Ad", "Ad_held"}):
+    if _history.hook(run, tier, {"Ad", "Ad_held", "Ad_after_extend"}):
         return run.finish()
     if "--replay" in sys.argv:
         d = json.load(open(sys.argv[sys.argv.index("--replay") + 1]))
